@@ -90,10 +90,23 @@ func Run(t *testing.T, cfg RunConfig, prog *Program, opt RunOptions) (res *Resul
 
 var debugFair = os.Getenv("SIM_DEBUG_FAIR") != ""
 
+// modeL1: the gorums package is compiled without scheduling points (race-detector runs); its
+// goroutines wait for locks by polling on the fake clock, so the driver lets a little time pass
+// after every action.
+var modeL1 = strings.HasPrefix(os.Getenv("SIM_MODE"), "L1")
+
+func quiesce() {
+	if modeL1 {
+		time.Sleep(30 * time.Millisecond)
+	}
+	synctest.Wait()
+}
+
 func newWorld(cfg RunConfig, prog *Program) *World {
 	w := &World{Cfg: cfg, Prog: prog, byReq: map[proto.Message]*Call{}, probes: map[string]int{}, rules: map[string]*RuleStat{}, faults: map[string]int{}}
 	w.calls = []*Call{nil} // tokens start at 1
 	w.rng = rand.New(rand.NewPCG(cfg.Seed, 0x9e3779b97f4a7c15))
+	curWorld.Store(w)
 	return w
 }
 
@@ -101,6 +114,9 @@ func (w *World) run(opt RunOptions, res *Result) {
 	w.start = time.Now()
 	w.sched = simrt.NewSched(w.Cfg.Seed)
 	w.sched.Profile = opt.Profile
+	if w.Cfg.FreeTasks {
+		w.sched.FreeRun()
+	}
 	w.net = simnet.New()
 	w.net.Cap = w.Cfg.NetCap
 	w.net.Log = func(kind string, attrs ...any) {
@@ -191,7 +207,7 @@ func (w *World) run(opt RunOptions, res *Result) {
 	res.SimTime = w.simTime
 	res.Trace = w.trace
 	res.Faults = w.faults
-	res.NetStats = w.net.Stats
+	res.NetStats = w.net.Snapshot()
 	res.Probes = w.probes
 	res.Rules = w.rules
 	res.Violations = w.viol
@@ -242,17 +258,18 @@ func (w *World) extraMain() bool {
 // maxTime of simulated time has passed, or after maxSteps.
 func (w *World) settle(name string, openGates bool, minTime, maxTime time.Duration, maxSteps int, until func() bool) {
 	w.phase = name
-	w.net.AutoConnect = true
+	w.net.SetAutoConnect(true)
 	if openGates {
 		w.net.HealAll()
 		w.settling = true
+		w.settlingA.Store(true)
 	}
 	w.ev("phase", "%s", name)
 	fc := &fairChooser{last: map[string]int{}}
 	startT := w.simTime
 	idle := 0
 	for n := 0; n < maxSteps; n++ {
-		synctest.Wait()
+		quiesce()
 		w.mu.Lock()
 		w.step++
 		w.mu.Unlock()
@@ -293,13 +310,13 @@ func (w *World) settle(name string, openGates bool, minTime, maxTime time.Durati
 // If noClock is set the clock does not advance at all.
 func (w *World) grace(name string, noClock bool, maxTime time.Duration, maxSteps int, until func() bool) {
 	w.phase = name
-	w.net.AutoConnect = true
+	w.net.SetAutoConnect(true)
 	w.ev("phase", "%s", name)
 	fc := &fairChooser{last: map[string]int{}}
 	startT := w.simTime
 	idle := 0
 	for n := 0; n < maxSteps; n++ {
-		synctest.Wait()
+		quiesce()
 		w.mu.Lock()
 		w.step++
 		w.mu.Unlock()
@@ -342,7 +359,7 @@ func (w *World) tickFair(d time.Duration) {
 	var el time.Duration
 	for el < d {
 		s := min(slice, d-el)
-		dials := w.net.Stats.Dials
+		dials := w.net.Snapshot().Dials
 		time.Sleep(s)
 		el += s
 		w.simTime += s
@@ -355,7 +372,7 @@ func (w *World) tickFair(d time.Duration) {
 				return
 			}
 		}
-		if w.net.Stats.Dials != dials {
+		if w.net.Snapshot().Dials != dials {
 			slice = 250 * time.Microsecond
 		} else if slice < time.Second {
 			slice *= 2
@@ -380,6 +397,7 @@ func (w *World) allCallsDone() bool {
 func (w *World) teardown(res *Result) {
 	w.phase = "teardown"
 	w.settling = true
+	w.settlingA.Store(true)
 	for _, c := range w.calls[1:] {
 		if c.cancel != nil {
 			c.cancel()
